@@ -4,6 +4,9 @@ R1.1 STATUS-PAIR     flag typestate: after a value-changing edit of a descriptio
                      that description's `minimized` claim or the saturation-matrix claims standing
 R1.2 CONST-MUTATION  = R13.4 restricted to Polyhedron: const members strip constness only at the
                      confirmed lazy-update sites
+R1.3 PENDING-PAIR    every insert_pending is followed by the matching set_*_pending
+R1.4 PRECONDITIONS   every asserted lazy-state precondition (nothing pending, description up to
+                     date) is entailed, along every CFG path, by the state of the object handed over
 Correctness of conversion / minimization / simplification and of every query's arithmetic is not decided.
 """
 import re
@@ -118,6 +121,26 @@ def r1_3(ctx, fx):
     ctx.floor(rid, n, 15, "insert_pending sites")
 
 
+R14_EXC = {
+    ("H79_widening_assign", "select_CH78_constraints"): ("y", "for NNC y the code first computes yy.intersection_assign(x) on the const_cast alias of y, which always ends with constraints pending or generators out of date, and then yy.is_empty(), which in both cases runs the full minimization: y is minimized with nothing pending (closed y: y.minimize()); the summary of intersection_assign is a disjunction the state cannot hold"),
+    ("H79_widening_assign", "select_H79_constraints"): ("y", "as for select_CH78_constraints: y has been minimized on both branches"),
+    ("H79_widening_assign", "reads", "y.con_sys"): "y has been minimized on both branches (see the select_CH78_constraints entry)",
+    ("update_sat_c", "reads", "con_sys"): "asserts both descriptions minimized and reads only the non-pending prefix (bounded by first_pending_row()) of each: the saturation matrix relates exactly those rows",
+    ("update_sat_c", "reads", "gen_sys"): "as above",
+    ("update_sat_g", "reads", "con_sys"): "as above",
+    ("update_sat_g", "reads", "gen_sys"): "as above",
+    ("simplified_constraints", "reads", "con_sys"): "asserts constraints up to date; its only caller (Box(const Polyhedron&, POLYNOMIAL_COMPLEXITY)) reaches it when generators are out of date or constraints are pending, both of which exclude pending generators",
+}
+
+
+def r1_4(ctx):
+    from rules import precond
+    rid = "R1.4"
+    ctx.rule(rid, "asserted lazy-state preconditions are discharged: every PPL_ASSERT of Polyhedron about has_pending_* / *_are_up_to_date (mined from the assertion-enabled view on every run) is either an entry precondition — then the abstract lazy state of the object handed over entails it at every call site, along every CFG path — or is entailed where it stands; likewise every content read of con_sys (resp. gen_sys) happens in a state that entails `constraints up to date and no pending generators` (resp. the dual); the state is built from branch tests, the lazy-update members and the class invariants (pending rows only on two up-to-date descriptions and on one side; a non-empty polyhedron has a description up to date). The suite runs without assertions: a missing process_pending_* / update_* silently reads a stale description")
+    n = precond.discharge(ctx, rid, R14_EXC, direct=True)
+    ctx.floor(rid, n, 240, "assertions, call sites and description reads with lazy-state obligations")
+
+
 def run(ctx):
     ctx.explanation = ("C01 lazy-status protocol of Polyhedron as flag typestate / must-follow rules over all CFG paths, and observer discipline (const_cast "
                        "allowlist); decides the protocol clauses, not conversion/minimization/query arithmetic")
@@ -126,6 +149,7 @@ def run(ctx):
     fx = ctx.extract(units())
     r1_1(ctx, fx)
     r1_3(ctx, fx)
+    r1_4(ctx)
     from rules import c13
     ctx.rule("R13.4", "see C13")
     c13.r13_4(ctx)
